@@ -99,6 +99,29 @@ CLAIMS["C03"] = dict(
               "state",
     ref="3/C03")
 
+CLAIMS["C06"] = dict(
+    text="The real RTDCBase.__getitem__/__contains__/"
+         "_get_ancillary_feature_data, AncillaryFeature.is_available/hash/"
+         "compute and all registered core compute methods run on a real "
+         "RTDC_Dict dataset whose configuration values are symbolic reals; "
+         "histories 'read, edit one key (new arbitrary value / delete / "
+         "add), test availability, read' are explored for every presence "
+         "pattern of the emodulus keys and every key of every other core "
+         "recipe. The real cache-hit branch is taken under the symbolic "
+         "condition 'stored hash == current hash' (md5 injective) and z3 "
+         "decides whether the cached arguments can differ from those a fresh "
+         "dataset uses (2-safety), plus availability <=> reading succeeds "
+         "and the documented scenario precedence. Three deliberate sanity "
+         "checks are reported as KNOWN-FINDING.",
+    note="Trusted: z3, symx, md5-injectivity stub, uninterpreted numeric "
+         "kernels (crosstalk inversion is modelled exactly). Feature data "
+         "are constant; plugin/ML features and hierarchy children are "
+         "outside the claim.",
+    technique="symbolic execution of the real Python objects with symbolic "
+              "configuration values + z3 (2-safety / self-composition over "
+              "cache hits)",
+    ref="3/C06")
+
 NOT_APPLICABLE = {
 }
 
